@@ -84,61 +84,142 @@ func (f *fclock) arm() *parkPoint {
 }
 
 // world tracks the goroutines the harness expects to exist, so that it can
-// wait (deterministically, without timers) until the code under test has
-// settled: a started sleeper has registered, a fired one has finished clearKey.
+// wait (deterministically, without timers on the normal path) until the code
+// under test has settled. The condition waited for is a plain quiescence
+// condition that does not presuppose what the code does per Set:
+//
+//	every goroutine beyond the harness's own is a sleeper that has registered
+//	with the clock (called Sleep) and has not been fired.
+//
+// A `go` statement counts in runtime.NumGoroutine at once, so after an
+// operation of the code under test returned on the harness goroutine:
+//   - a sleeper it started is visible immediately and the wait lasts until it
+//     has registered (microseconds);
+//   - if it started none (refused Set, or an implementation that starts no
+//     sleeper for some entries) the condition holds at once and the harness
+//     continues: "no sleeper registered" is an observation, not an error.
+//
+// Goroutines of the code under test that neither register nor exit within a
+// bounded wait are adopted as "strays" (counted in the distribution) instead
+// of stopping the run.
 type world struct {
 	clk     *fclock
 	base    int // goroutines when nothing is pending
-	pending int // sleepers registered and not fired
-	reg     int // sleepers registered so far
-	parked  int // Set callers parked inside Now()
+	reg     int // sleeper registrations acknowledged so far
+	fired   int // registered sleepers the harness has released
+	helpers int // harness goroutines that ran a concurrent Set (parked in Now() or waiting for the end of the case)
+	strays  int // adopted goroutines of the code under test that never called Sleep
+	release chan struct{}
 }
 
 var baseGoroutines int
 
-func newWorld(t0 int64) *world {
-	return &world{clk: &fclock{now: t0}, base: baseGoroutines}
+// leakedStrays: goroutines of the code under test that outlived their case
+// (never at HEAD); they are part of baseGoroutines until they end.
+var leakedStrays int
+
+// syncStats: how the synchronisation with the cache's goroutines went
+// (reported as distribution counts "sync.*").
+var syncStats = map[string]int{
+	"sync.sleepers_registered":            0,
+	"sync.set_ok_no_sleeper_registered":   0,
+	"sync.set_refused_sleeper_registered": 0,
+	"sync.extra_sleepers_registered":      0,
+	"sync.goroutines_without_clock_sleep": 0,
+	"sync.goroutines_left_at_end_of_case": 0,
 }
 
-func spin(cond func() bool, what string) {
-	deadline := time.Now().Add(20 * time.Second)
+func newWorld(t0 int64) *world {
+	return &world{clk: &fclock{now: t0}, base: baseGoroutines, release: make(chan struct{})}
+}
+
+// waitBound: how long a wait for quiescence may last. It is never reached on
+// the normal path; once it was reached the later waits are kept short so that
+// an implementation with non-sleeping goroutines cannot stall the run.
+var waitBound = 3 * time.Second
+
+// spin yields until cond holds; false when the bound was reached first.
+func spin(cond func() bool) bool {
+	var deadline time.Time
 	for i := 0; !cond(); i++ {
 		runtime.Gosched()
 		if i%1000 == 999 {
-			if time.Now().After(deadline) {
-				panic("c12 harness: timed out waiting for " + what +
-					fmt.Sprintf(" (goroutines=%d)", runtime.NumGoroutine()))
+			if deadline.IsZero() {
+				deadline = time.Now().Add(waitBound)
+			} else if time.Now().After(deadline) {
+				return false
 			}
 			time.Sleep(50 * time.Microsecond)
 		}
 	}
+	return true
 }
 
-// settle is called after an operation of the code under test returned.
-// expect = number of sleepers the operation must have started (Set returned
-// nil: 1, an error: 0), or -1 when unknown (plugin calls swallow the error);
-// -1 is only used when no helper goroutine of the harness is exiting, so the
-// goroutine count is exact at once (a `go` statement counts immediately).
-// Returns the number started, after they have registered with the clock.
-func (w *world) settle(expect int) int {
-	if expect < 0 {
-		expect = runtime.NumGoroutine() - w.base - w.parked - w.pending
-		if expect < 0 || expect > 1 {
-			panic(fmt.Sprintf("c12 harness: unexpected goroutine count (delta %d)", expect))
+// unaccounted = goroutines that are neither the harness's nor registered,
+// unfired sleepers.
+func (w *world) unaccounted() int {
+	u := runtime.NumGoroutine() - w.base - w.helpers - (w.clk.registered() - w.fired)
+	if u < 0 && leakedStrays > 0 {
+		// goroutines adopted from earlier cases have ended since
+		adj := -u
+		if adj > leakedStrays {
+			adj = leakedStrays
 		}
+		leakedStrays -= adj
+		baseGoroutines -= adj
+		w.base -= adj
+		u += adj
 	}
-	want := w.reg + expect
-	spin(func() bool {
-		return w.clk.registered() == want &&
-			runtime.NumGoroutine() == w.base+w.parked+w.pending+expect
-	}, "sleeper registration")
-	w.reg = want
-	w.pending += expect
-	return expect
+	return u
+}
+
+// quiesce waits until nothing is unaccounted for (strays already adopted may
+// have gone in the meantime).
+func (w *world) quiesce() {
+	ok := spin(func() bool {
+		u := w.unaccounted()
+		if u >= 0 && u < w.strays {
+			w.strays = u
+		}
+		return u == w.strays
+	})
+	if ok {
+		return
+	}
+	u := w.unaccounted()
+	if u < w.strays {
+		// fewer goroutines than the harness itself owns: its own accounting is wrong
+		panic(fmt.Sprintf("c12 harness: goroutine accounting broken (unaccounted %d, goroutines=%d)", u, runtime.NumGoroutine()))
+	}
+	syncStats["sync.goroutines_without_clock_sleep"] += u - w.strays
+	w.strays = u
+	waitBound = time.Millisecond
+}
+
+// settle is called after an operation of the code under test returned. It
+// returns how many sleepers the operation started (normally 1 for a Set that
+// stored, 0 otherwise), after they have registered with the clock. ok tells
+// whether the operation reported success (Set returned nil), nil-able for
+// plugin calls that swallow the error (stored: what the snapshot says).
+func (w *world) settle(stored bool) int {
+	w.quiesce()
+	n := w.clk.registered() - w.reg
+	w.reg += n
+	syncStats["sync.sleepers_registered"] += n
+	switch {
+	case stored && n == 0:
+		syncStats["sync.set_ok_no_sleeper_registered"]++
+	case !stored && n > 0:
+		syncStats["sync.set_refused_sleeper_registered"]++
+	}
+	if n > 1 {
+		syncStats["sync.extra_sleepers_registered"] += n - 1
+	}
+	return n
 }
 
 // fire releases sleeper #idx (registration order) and waits until its
-// goroutine (clearKey) has finished.
+// goroutine has finished (or sleeps again).
 func (w *world) fire(idx int) {
 	w.clk.mu.Lock()
 	s := w.clk.sleepers[idx]
@@ -149,18 +230,44 @@ func (w *world) fire(idx int) {
 	s.fired = true
 	w.clk.mu.Unlock()
 	close(s.ch)
-	w.pending--
-	spin(func() bool { return runtime.NumGoroutine()-w.base-w.parked == w.pending }, "sleeper exit")
+	w.fired++
+	w.quiesce()
 }
 
 func (w *world) due(idx int) int64 { return w.clk.sleepers[idx].due }
 
+// helper registers a harness goroutine that stays alive until the end of the
+// case (so that the goroutine count never depends on when it exits).
+func (w *world) helper() <-chan struct{} {
+	w.helpers++
+	return w.release
+}
+
 // finish fires everything still pending so that no goroutine outlives the case.
 func (w *world) finish() {
-	for i, s := range w.clk.sleepers {
-		if !s.fired {
-			w.fire(i)
+	for {
+		w.quiesce()
+		w.clk.mu.Lock()
+		idx := -1
+		for i, s := range w.clk.sleepers {
+			if !s.fired {
+				idx = i
+				break
+			}
 		}
+		w.clk.mu.Unlock()
+		if idx < 0 {
+			break
+		}
+		w.fire(idx)
 	}
-	spin(func() bool { return runtime.NumGoroutine() == w.base }, "quiescence at end of case")
+	close(w.release)
+	w.helpers = 0
+	w.quiesce()
+	if w.strays > 0 {
+		// adopted goroutines outlive the case: the next case starts from here
+		syncStats["sync.goroutines_left_at_end_of_case"] += w.strays
+		leakedStrays += w.strays
+		baseGoroutines += w.strays
+	}
 }
